@@ -18,9 +18,14 @@ func be64(b *bytes.Buffer, v int64) { binary.Write(b, binary.BigEndian, v) }
 
 // encodeMsg encodes one v1 message with the given offset.
 func encodeMsg(offset int64, tsMs int64, key, value []byte) []byte {
+	return encodeMsgAttrs(offset, tsMs, key, value, 0)
+}
+
+// encodeMsgAttrs: attrs carries the compression codec in its low 3 bits.
+func encodeMsgAttrs(offset int64, tsMs int64, key, value []byte, attrs byte) []byte {
 	var body bytes.Buffer
 	body.WriteByte(1)
-	body.WriteByte(0)
+	body.WriteByte(attrs)
 	be64(&body, tsMs)
 	if key == nil {
 		be32(&body, -1)
